@@ -490,4 +490,52 @@ def _build():
                 ALL.append(cname)
 
 
+def method_overrides(repo_root="/repo"):
+    """{method name: handler name} for the ndarray methods unyt_array overrides by forwarding to
+    one of its array-function handlers (`from ._array_functions import h` inside the method)"""
+    tree = ast.parse(open(os.path.join(repo_root, "unyt", "array.py")).read())
+    out = {}
+    for st in tree.body:
+        if isinstance(st, ast.ClassDef) and st.name == "unyt_array":
+            for m in st.body:
+                if not isinstance(m, ast.FunctionDef):
+                    continue
+                for x in ast.walk(m):
+                    if isinstance(x, ast.ImportFrom) and x.module == "_array_functions" and x.level == 1:
+                        for a in x.names:
+                            out[m.name] = a.name
+    return out
+
+
+METHODS = []
+
+
+def _build_methods():
+    """C06 for the method form (a.take(...)): the override is executed together with the handler
+    it forwards to, and must hand every argument of the call to NumPy like the handler itself"""
+    root = os.environ.get("PYVC_REPO", "/repo")
+    reg = registered_handlers(root)
+    for mname, hname in sorted(method_overrides(root).items()):
+        npname = reg.get(hname)
+        if npname not in NA.F:
+            continue
+        for with_out in (False, True):
+            if with_out and "out" not in ARGS.get(hname, []):
+                continue
+            cname = "M_" + mname + ("_out" if with_out else "")
+
+            def configure(self, repo, dom, _h=hname):
+                Handler.configure(self, repo, dom)
+                dom.inline.add("unyt._array_functions." + _h)
+            cls = type(cname, (Handler,), {
+                "name": "unyt.array.unyt_array." + mname, "handler": hname, "numpy": npname,
+                "flags": {}, "with_out": with_out, "configure": configure,
+                "tag": "method:" + npname + ("[out=]" if with_out else "")})
+            cls.__module__ = __name__
+            globals()[cname] = cls
+            METHODS.append(cname)
+            ALL.append(cname)
+
+
 _build()
+_build_methods()
